@@ -50,7 +50,11 @@ func (v *V) tok(b *strings.Builder) {
 	case 's':
 		b.WriteString("s" + v.S)
 	case 'o':
-		fmt.Fprintf(b, "o%d", opqCode(v.S))
+		if v.S == "#comment" {
+			b.WriteString("o-1") // Templ.comment_code
+		} else {
+			fmt.Fprintf(b, "o%d", opqCode(v.S))
+		}
 	case '(', '[':
 		cl := ")"
 		if v.K == '[' {
@@ -199,6 +203,8 @@ func Canon(x zygo.Sexp) *V {
 		return out
 	case *zygo.SexpBool, *zygo.SexpFloat:
 		return vo(x.SexpString(nil))
+	case *zygo.SexpComment:
+		return &V{K: 'o', S: "#comment"}
 	}
 	if x == nil {
 		return &V{K: 'o', S: "go-nil", Bad: true}
@@ -269,6 +275,11 @@ func (t *T) Reified() *V {
 }
 
 // Src prints the template as source; sugar selects ~e / ~@e over (unquote e).
+// commentFn, when set, supplies a comment (or "") to write before each element and before the
+// closing bracket of a list or array of a template printed by Src.  Never directly after a
+// reader prefix (^ ~ ~@).
+var commentFn func() string
+
 func (t *T) Src(sugar bool) string {
 	switch t.K {
 	case 'L':
@@ -289,8 +300,15 @@ func (t *T) Src(sugar bool) string {
 		parts := make([]string, len(t.L))
 		for i, x := range t.L {
 			parts[i] = x.Src(sugar)
+			if commentFn != nil {
+				parts[i] = commentFn() + parts[i]
+			}
 		}
-		return op + strings.Join(parts, " ") + cl
+		tail := ""
+		if commentFn != nil {
+			tail = commentFn()
+		}
+		return op + strings.Join(parts, " ") + tail + cl
 	}
 	return "<hash>"
 }
